@@ -68,6 +68,9 @@ class Daemon:
     def signal(self, sig):
         self.p.send_signal(sig)
 
+    def alive(self):
+        return self.p.poll() is None
+
     def lines(self):
         with self._lock:
             return bytes(self.out).decode('latin-1').split('\n')
